@@ -99,3 +99,40 @@ Proof.
   split; [vm_compute; reflexivity|]. split; [vm_compute; reflexivity|]. split; [vm_compute; reflexivity|].
   split; [vm_compute; reflexivity|]. split; [vm_compute; reflexivity|]. split; vm_compute; reflexivity.
 Qed.
+
+(* ---- constants generated from the source (harness/gen.go writes Gen/Consts.v from plan.go
+   before every check run; these are re-proved then) ---- *)
+From Coq Require Import NArith.
+From GQL Require Gen.Consts.
+
+(* C16_never_blocks and C16_call_returns for the code as it is: the result channel of
+   ExecutePlan has the capacity found in the source (`make(chan *Result, N)`), the only channel
+   the function sends on. *)
+Theorem C16_gen_never_blocks : forall n,
+  let cap := N.to_nat Gen.Consts.execute_plan_result_chan_cap in
+  forall s r, reach n cap s -> bp s = BFinish r -> exists s', step n cap s LSend s'.
+Proof.
+  intros n cap. apply C16_never_blocks. apply Nat.leb_le.
+  first [ vm_compute; reflexivity
+        | fail 1 "generated-table obligation C16_gen_never_blocks no longer holds against the regenerated table: the result channel of ExecutePlan in plan.go has no buffer (Gen/Consts.v)" ].
+Qed.
+Print Assumptions C16_gen_never_blocks.
+
+Theorem C16_gen_call_returns : forall n,
+  let cap := N.to_nat Gen.Consts.execute_plan_result_chan_cap in
+  forall s, reach n cap s -> cp s <> CIdle -> done s = true \/ released n s ->
+  exists ls s', run n cap s ls s' /\ Forall (fun l => lib l = true) ls /\ returned s' = true.
+Proof.
+  intros n cap. apply C16_call_returns. apply Nat.leb_le.
+  first [ vm_compute; reflexivity
+        | fail 1 "generated-table obligation C16_gen_call_returns no longer holds against the regenerated table: the result channel of ExecutePlan in plan.go has no buffer (Gen/Consts.v)" ].
+Qed.
+Print Assumptions C16_gen_call_returns.
+
+Theorem C16_gen_one_result_channel :
+  Gen.Consts.execute_plan_result_send_chan_caps = [Gen.Consts.execute_plan_result_chan_cap].
+Proof.
+  first [ vm_compute; reflexivity
+        | fail 1 "generated-table obligation C16_gen_one_result_channel no longer holds against the regenerated table: ExecutePlan in plan.go does not send on exactly one channel it makes (Gen/Consts.v)" ].
+Qed.
+Print Assumptions C16_gen_one_result_channel.
